@@ -1,0 +1,147 @@
+//! Verification hook points (only compiled with the `verif` cargo feature).
+//!
+//! A hook point is a named location in the code. When no handler is installed and no
+//! `RIP_VERIF_*` environment variable is set, a point is a single relaxed atomic load and has
+//! no effect on behaviour. A verification harness can install a handler to record events,
+//! inject delays, take crash images or park a thread until another one has made progress.
+
+use std::sync::atomic::{AtomicU8, Ordering};
+use std::sync::{Arc, Mutex, OnceLock, RwLock};
+
+pub type Handler = Arc<dyn Fn(&'static str, &str) + Send + Sync>;
+
+// 0 = not initialised, 1 = disabled (no handler), 2 = enabled.
+static STATE: AtomicU8 = AtomicU8::new(0);
+static HANDLER: RwLock<Option<Handler>> = RwLock::new(None);
+
+/// Install (or replace) the process-wide handler.
+pub fn set_handler(handler: Handler) {
+    *HANDLER.write().unwrap_or_else(|e| e.into_inner()) = Some(handler);
+    STATE.store(2, Ordering::SeqCst);
+}
+
+/// Remove the handler; points become no-ops again.
+pub fn clear_handler() {
+    *HANDLER.write().unwrap_or_else(|e| e.into_inner()) = None;
+    STATE.store(1, Ordering::SeqCst);
+}
+
+#[inline]
+pub fn enabled() -> bool {
+    match STATE.load(Ordering::Relaxed) {
+        1 => false,
+        2 => true,
+        _ => init_from_env(),
+    }
+}
+
+/// A hook point with a ready-made context string.
+#[inline]
+pub fn point(name: &'static str, ctx: &str) {
+    if enabled() {
+        dispatch(name, ctx);
+    }
+}
+
+/// A hook point whose context is only formatted when a handler is installed.
+#[inline]
+pub fn point_with<F: FnOnce() -> String>(name: &'static str, ctx: F) {
+    if enabled() {
+        let ctx = ctx();
+        dispatch(name, &ctx);
+    }
+}
+
+fn dispatch(name: &'static str, ctx: &str) {
+    let handler = HANDLER
+        .read()
+        .unwrap_or_else(|e| e.into_inner())
+        .as_ref()
+        .cloned();
+    if let Some(handler) = handler {
+        handler(name, ctx);
+    }
+}
+
+struct EnvSpec {
+    // point name (or prefix ending in '*') -> microseconds
+    delays: Vec<(String, u64)>,
+    // point name -> n-th hit (1-based) at which the process aborts
+    aborts: Vec<(String, u64)>,
+    hits: Mutex<std::collections::HashMap<&'static str, u64>>,
+}
+
+static ENV_SPEC: OnceLock<EnvSpec> = OnceLock::new();
+
+fn matches(pattern: &str, name: &str) -> bool {
+    match pattern.strip_suffix('*') {
+        Some(prefix) => name.starts_with(prefix),
+        None => pattern == name,
+    }
+}
+
+#[cold]
+fn init_from_env() -> bool {
+    let delay = std::env::var("RIP_VERIF_DELAY").unwrap_or_default();
+    let abort = std::env::var("RIP_VERIF_ABORT").unwrap_or_default();
+    if delay.trim().is_empty() && abort.trim().is_empty() {
+        // Do not override a handler installed concurrently.
+        let _ = STATE.compare_exchange(0, 1, Ordering::SeqCst, Ordering::SeqCst);
+        return STATE.load(Ordering::SeqCst) == 2;
+    }
+    let mut spec = EnvSpec {
+        delays: Vec::new(),
+        aborts: Vec::new(),
+        hits: Mutex::new(std::collections::HashMap::new()),
+    };
+    for item in delay.split(',').filter(|s| !s.trim().is_empty()) {
+        if let Some((name, us)) = item.trim().split_once('=') {
+            if let Ok(us) = us.trim().parse::<u64>() {
+                spec.delays.push((name.trim().to_string(), us));
+            }
+        }
+    }
+    for item in abort.split(',').filter(|s| !s.trim().is_empty()) {
+        let (name, nth) = match item.trim().rsplit_once(':') {
+            Some((name, nth)) => (name.trim(), nth.trim().parse::<u64>().unwrap_or(1)),
+            None => (item.trim(), 1),
+        };
+        spec.aborts.push((name.to_string(), nth.max(1)));
+    }
+    let _ = ENV_SPEC.set(spec);
+    let mut guard = HANDLER.write().unwrap_or_else(|e| e.into_inner());
+    if guard.is_none() {
+        *guard = Some(Arc::new(env_handler));
+    }
+    drop(guard);
+    STATE.store(2, Ordering::SeqCst);
+    true
+}
+
+fn env_handler(name: &'static str, _ctx: &str) {
+    let Some(spec) = ENV_SPEC.get() else {
+        return;
+    };
+    for (pattern, nth) in &spec.aborts {
+        if matches(pattern, name) {
+            let mut hits = spec.hits.lock().unwrap_or_else(|e| e.into_inner());
+            let count = hits.entry(name).or_insert(0);
+            *count += 1;
+            if *count == *nth {
+                eprintln!("rip-verif: abort at {name} (hit {nth})");
+                std::process::abort();
+            }
+        }
+    }
+    for (pattern, us) in &spec.delays {
+        if matches(pattern, name) {
+            // Pseudo-random 0..=us so that contenders do not stay in lock-step.
+            let t = std::time::SystemTime::now()
+                .duration_since(std::time::UNIX_EPOCH)
+                .map(|d| d.subsec_nanos() as u64)
+                .unwrap_or(0);
+            let jitter = if *us == 0 { 0 } else { t % (*us + 1) };
+            std::thread::sleep(std::time::Duration::from_micros(jitter));
+        }
+    }
+}
